@@ -8,17 +8,80 @@ Import ListNotations.
 Local Open Scope string_scope.
 Local Open Scope list_scope.
 
-Inductive case := Reload (changed : list string) (ptr_fresh : list string) (observed : list (string * bool)).
+(* One observation of a real Core, after New or after a real reloadConf:
+   changed     the parameters whose value differs from the previous configuration (derived guard fields such as
+               "Paths#atLeastOneRecordDeleteAfter" included), ptr_fresh the pointer-typed ones whose pointer differs;
+   atoms_true  the guard atoms of the table that are true in the new configuration (evaluated by the driver);
+   enabled     the components the new configuration enables - the driver's own reading of the documented meaning of
+               the enable flags and encryption modes, not the table's;
+   ident       per component standing in Core the serial number of the instance (1 = created by New, k+1 = first seen
+               after reload number k); a component that is not listed is absent;
+   not_held    (component, configuration field): the running component does NOT hold the new configuration's value,
+               among all `Key: currentConf.Field` of the constructor literals, read from the component itself
+               (for AuthInternalUsers also: a user of the new list is not admitted, or a removed one still is);
+   stale       (component, held component): the reference it holds is NOT the instance standing in Core now.
+   A history also lists `skipped`: the (component, field / held component) pairs the driver cannot compare. *)
+Inductive step := Step (changed ptr_fresh : list string) (atoms_true : list (string * string))
+                       (enabled : list string) (ident : list (string * Z))
+                       (not_held stale : list (string * string)).
+
+Inductive case :=
+| Reload (changed : list string) (ptr_fresh : list string) (observed : list (string * bool))
+| History (skipped : list (string * string)) (init : step) (steps : list step).
 
 Definition old_conf : conf := fun _ => {| val := 0; addr := 1 |}.
 Definition new_conf (changed ptr_fresh : list string) : conf :=
   fun f => {| val := if mem f changed then 1%Z else 0%Z; addr := if mem f ptr_fresh then 2%Z else 1%Z |}.
+
+(* --- histories: the model's reload is replayed from the model's own state and compared after every step --- *)
+
+Fixpoint lookupZ (c : string) (l : list (string * Z)) : Z :=
+  match l with [] => 0%Z | (k, v) :: t => if String.eqb k c then v else lookupZ c t end.
+Fixpoint lookupB (c : string) (l : list (string * bool)) : bool :=
+  match l with [] => false | (k, v) :: t => if String.eqb k c then v else lookupB c t end.
+
+Definition conf0 : conf := fun _ => {| val := 0; addr := 0 |}.
+(* every changed parameter takes a value it never had before *)
+Definition bump (c : conf) (changed ptr_fresh : list string) (k : Z) : conf :=
+  fun f => {| val := if mem f changed then k else val (c f); addr := if mem f ptr_fresh then k else addr (c f) |}.
+
+(* the oracle for the guard atoms of one configuration: what the driver evaluated on it *)
+Definition pmem (p : string * string) (l : list (string * string)) : bool :=
+  existsb (fun q => String.eqb (fst p) (fst q) && String.eqb (snd p) (snd q)) l.
+Definition atomv_of (atoms_true : list (string * string)) : string -> string -> Z -> bool :=
+  fun f t _ => pmem (f, t) atoms_true.
+
+Definition agree (skipped : list (string * string)) (cur : conf) (s : state) (ident : list (string * Z))
+                 (not_held stale : list (string * string)) : bool :=
+  forallb (fun r =>
+    let c := comp r in
+    Z.eqb (gen_of (s c)) (lookupZ c ident) &&
+    match s c with
+    | None => true
+    | Some i =>
+        forallb (fun f => pmem (c, f) skipped ||
+                          Bool.eqb (Z.eqb (hval i f) (val (cur f))) (negb (pmem (c, f) not_held))) (uses r) &&
+        forallb (fun d => pmem (c, d) skipped ||
+                          Bool.eqb (Z.eqb (href i d) (gen_of (s d))) (negb (pmem (c, d) stale))) (refs r)
+    end) core_table.
+
+Fixpoint replay (skipped : list (string * string)) (k : Z) (cur : conf) (s : state) (steps : list step) : bool :=
+  match steps with
+  | [] => true
+  | Step ch pf atoms _ ident not_held stale :: rest =>
+      let new := bump cur ch pf k in
+      let s' := reload (atomv_of atoms) (k + 1) core_table pointer_fields cur new s in
+      agree skipped new s' ident not_held stale && replay skipped (k + 1) new s' rest
+  end.
 
 Definition mismatch (c : case) : bool :=
   match c with
   | Reload changed ptr_fresh observed =>
       negb (forallb (fun cb => Bool.eqb (closes_eval core_table pointer_fields old_conf (new_conf changed ptr_fresh) (fst cb)) (snd cb))
                     observed)
+  | History skipped (Step _ _ atoms0 _ ident0 not_held0 stale0) steps =>
+      let s0 := start (atomv_of atoms0) core_table conf0 in
+      negb (agree skipped conf0 s0 ident0 not_held0 stale0 && replay skipped 1 conf0 s0 steps)
   end.
 
 (* The property on the observation, using only the construction side of the table (which parameters and which
@@ -36,8 +99,45 @@ Fixpoint held (fuel : nat) (c : string) : list string :=
 
 Definition in_place : list string := ["Paths"; "AuthInternalUsers"].
 
+(* The property on a history, on the observations only (construction side of the table: params, refs):
+   - after New and after every reload a component stands in Core exactly when the configuration enables it;
+   - every running component holds the current configuration's value of every parameter bound in its constructor
+     (whether it was recreated, reloaded in place, or left alone), and the current instance of every component it holds;
+   - a component built from a changed parameter (other than those that may be pushed in place), or holding a component
+     that was replaced, created or removed, does not survive the reload as the same instance;
+   - an instance is replaced, created or removed only if a parameter changed that it or a component it holds is built from. *)
+Definition obs_ok (enabled : list string) (ident : list (string * Z)) (not_held stale : list (string * string)) : bool :=
+  forallb (fun r => Bool.eqb (negb (Z.eqb (lookupZ (comp r) ident) 0)) (mem (comp r) enabled)) core_table &&
+  match not_held with [] => true | _ => false end && match stale with [] => true | _ => false end.
+
+Definition step_ok (prev : list (string * Z)) (st : step) : bool :=
+  match st with
+  | Step ch _ _ enabled ident not_held stale =>
+      obs_ok enabled ident not_held stale &&
+      forallb (fun r =>
+        let c := comp r in
+        let g := lookupZ c ident in
+        let g0 := lookupZ c prev in
+        let moved := negb (Z.eqb g g0) in
+        let direct := existsb (fun f => mem f (params r) && negb (mem f in_place)) ch in
+        let through := existsb (fun d => negb (Z.eqb (lookupZ d ident) (lookupZ d prev))) (refs r) in
+        let any := existsb (fun d => match row_of d with
+                                     | Some rd => existsb (fun f => mem f (params rd)) ch
+                                     | None => false end) (held 8 c) in
+        (if direct || through then moved || (Z.eqb g 0 && Z.eqb g0 0) else true) && (if moved then any else true))
+        core_table
+  end.
+
+Fixpoint steps_ok (prev : list (string * Z)) (steps : list step) : bool :=
+  match steps with
+  | [] => true
+  | st :: rest => step_ok prev st && steps_ok (match st with Step _ _ _ _ ident _ _ => ident end) rest
+  end.
+
 Definition spec_fail (c : case) : bool :=
   match c with
+  | History _ (Step _ _ _ en0 ident0 not_held0 stale0) steps =>
+      negb (obs_ok en0 ident0 not_held0 stale0 && steps_ok ident0 steps)
   | Reload changed _ observed =>
       negb (forallb (fun cb =>
         let '(c, rec) := cb in
